@@ -1,4 +1,5 @@
 import HcipyVerif.Lemmas.GridWeights
+import HcipyVerif.Lemmas.GridPolar
 import Mathlib.Tactic.LinearCombination
 
 /-!
@@ -13,8 +14,8 @@ points after every operation of random histories.
 
 The definitions model the code after the repairs D20, D21, D27, D30.  The behaviour before the
 repairs (`autoWeightsOld`, `Grid.reverseOld`) has proved counterexamples at the end.
-Trigonometric clauses (polar round trip, polar rotation) are in `Properties/C11` too, over `ℝ`,
-in the second half of this file's companion `Lemmas/GridPolar.lean` (imported by `C11`).
+The trigonometric clauses (Cartesian → polar → Cartesian, polar rotation) are stated over `ℝ` with
+the specification functions `toPolar` / `toCart` of `Lemmas/GridPolar.lean`.
 -/
 set_option linter.unusedSimpArgs false
 set_option linter.unusedVariables false
@@ -274,6 +275,36 @@ theorem focal_from_pupil_has_origin (tau s : Rat) (a1 a2 : RegAxis) (q1 q2 fov1 
   simp only [List.map_cons, List.map_nil, List.length_cons, List.length_nil] at this
   refine List.mem_map.mpr ⟨[0, 0], ?_, by simp [scalePt]⟩
   simpa [fftAxis, centredAxis] using this
+
+/-! ## Coordinate-system conversion (over `ℝ`) -/
+
+/-- **Cartesian → polar → Cartesian returns the same point**, for every point including the origin
+and the negative x-axis. -/
+theorem polar_roundtrip (p : ℝ × ℝ) : toCart (toPolar p) = p := by
+  obtain ⟨x, y⟩ := p
+  have h1 := Complex.norm_mul_cos_arg (⟨x, y⟩ : ℂ)
+  have h2 := Complex.norm_mul_sin_arg (⟨x, y⟩ : ℂ)
+  rw [norm_mk] at h1 h2
+  simp only [toCart, toPolar, Prod.mk.injEq]
+  exact ⟨h1, h2⟩
+
+/-- the polar radius is the distance from the origin, and never negative -/
+theorem polar_radius (p : ℝ × ℝ) : 0 ≤ (toPolar p).1 ∧ (toPolar p).1 * (toPolar p).1 = p.1 * p.1 + p.2 * p.2 := by
+  refine ⟨Real.sqrt_nonneg _, Real.mul_self_sqrt (by nlinarith [mul_self_nonneg p.1, mul_self_nonneg p.2])⟩
+
+/-- **`PolarGrid.rotate`** (`θ += α`, the repaired code) rotates the physical point by `α`. -/
+theorem polar_rotate_is_rotation (r θ α : ℝ) :
+    toCart (r, θ + α) =
+      (Real.cos α * (toCart (r, θ)).1 - Real.sin α * (toCart (r, θ)).2,
+       Real.sin α * (toCart (r, θ)).1 + Real.cos α * (toCart (r, θ)).2) := by
+  simp only [toCart, Real.cos_add, Real.sin_add, Prod.mk.injEq]
+  constructor <;> ring
+
+/-- **`PolarGrid.scale`** scales the physical point. -/
+theorem polar_scale_is_scaling (r θ k : ℝ) :
+    toCart (r * k, θ) = ((toCart (r, θ)).1 * k, (toCart (r, θ)).2 * k) := by
+  simp only [toCart, Prod.mk.injEq]
+  constructor <;> ring
 
 /-! ## The code before the repairs -/
 
